@@ -327,7 +327,8 @@ func cmdVerify(args []string) int {
 	{
 		var again []*oblOutcome
 		for _, oc := range outcomes {
-			if !oc.Obl.Cover && oc.KF == nil && oc.Res != nil && oc.Res.Status == "unknown" {
+			// a clause that cannot be evaluated any more has the goal `false`: more time cannot help
+			if !oc.Obl.Cover && oc.KF == nil && oc.Res != nil && oc.Res.Status == "unknown" && !strings.Contains(oc.Obl.Src, "[clause cannot be evaluated") {
 				again = append(again, oc)
 			}
 		}
